@@ -130,13 +130,20 @@ def _reach(root, mod_name, depth=4):
     return out
 
 
-def _shared_state(conn_http, base, derived):
-    """the objects (of classes of ak.conn_http) that a connection and a connection derived from it have in common, the
-    two connections themselves and request adapters left out: the underlying connection and what hangs below it"""
+def _shared_state(conn_http, base, derived=None):
+    """the objects (of classes of ak.conn_http) that a connection and connections derived from it have in common, the
+    connections themselves and request adapters left out: the underlying connection and what hangs below it.  When the
+    derived connections share nothing with it (that is a defect the executions will show) the objects below the base
+    connection are taken."""
     mod = conn_http.__name__
-    below_derived = {id(x) for x in _reach(derived, mod)}
-    return [x for x in _reach(base, mod) if id(x) in below_derived and x is not base and x is not derived
-            and not isinstance(x, conn_http.RequestAdapter)]
+    below = [x for x in _reach(base, mod) if x is not base and not isinstance(x, conn_http.RequestAdapter)]
+    out = []
+    for d in (conn_http.BAuthConn(base, 'u', 'p'), conn_http.HttpConn(base)):
+        below_d = {id(x) for x in _reach(d, mod)}
+        for x in below:
+            if id(x) in below_d and x is not d and not any(x is y for y in out):
+                out.append(x)
+    return out or below
 
 
 _LOCK_TYPES = None
@@ -202,7 +209,7 @@ def run(ctx):
     holder = {}
     # which objects carry the state that connections derived from one another share is found out on a probe pair
     probe = conn_http.HttpConn('http://h:1')
-    shared_classes = sorted({type(o) for o in _shared_state(conn_http, probe, conn_http.HttpConn(probe))}, key=lambda c: c.__name__)
+    shared_classes = sorted({type(o) for o in _shared_state(conn_http, probe)}, key=lambda c: c.__name__)
     if not shared_classes:
         raise Machinery('a connection and a connection derived from it share no object of ak.conn_http')
     sch = sched.Scheduler(shared_classes, lambda: holder.get('objs', []))
@@ -232,7 +239,7 @@ def run(ctx):
                 for ow, n in static_locks:
                     setattr(ow, n, sched._Shim(sch))
                 base = conn_http.HttpConn('http://h:1')
-                holder['objs'] = _shared_state(conn_http, base, conn_http.HttpConn(base))
+                holder['objs'] = _shared_state(conn_http, base)
                 part = []                 # the connection part of the generated ids: whatever the first one shows
                 if start:
                     # the state of a connection that has served `start` requests
@@ -373,7 +380,7 @@ def replay(ctx, case):
     transport.__enter__()
     holder = {}
     probe = conn_http.HttpConn('http://h:1')
-    shared_classes = sorted({type(o) for o in _shared_state(conn_http, probe, conn_http.HttpConn(probe))}, key=lambda c: c.__name__)
+    shared_classes = sorted({type(o) for o in _shared_state(conn_http, probe)}, key=lambda c: c.__name__)
     sch = sched.Scheduler(shared_classes, lambda: holder.get('objs', []))
     sched.install(sch)
     real_threading = conn_http.threading
@@ -387,7 +394,7 @@ def replay(ctx, case):
         fail = [tuple(x) for x in case.get('fail', [])]
         caller_headers = {'Accept': 'text/plain'} if case.get('shared_headers') else None
         base = conn_http.HttpConn('http://h:1')
-        holder['objs'] = _shared_state(conn_http, base, conn_http.HttpConn(base))
+        holder['objs'] = _shared_state(conn_http, base)
         start = case.get('start', 0)
         if start:
             cnt = [o for o in holder['objs'] if isinstance(getattr(o, '_cur_req_id', None), int)]
